@@ -14,6 +14,11 @@ R-C18-5: the uniform generator interpreted in exact arithmetic with symbolic R0 
          increase strictly, every fine radius is the midpoint of its coarse neighbours, divideBy2=k contains divideBy2=k-1 as its
          every-second-node subgrid, angles are j/ntheta of the literal 2*pi with antipodal partners, nr is odd. (The anisotropic
          generator orders doubles in std::set and is not interpretable symbolically; its memory safety is R-C18-1.)
+R-C18-6: the text round trip.  writeToFile and the file constructor are interpreted over abstract streams (iodom.py):
+         the reader must deliver the written sequence — same length, same order, value i = rd(written value i, notation,
+         precision) — into the members the writer took them from, nr_/ntheta_ re-derived, validation before derived data.
+         Library call sites pass the two file names in the same roles to writer and reader, and a constant precision p with
+         10^-p below the tolerance of the reload checks (extracted from equals<double>).
 """
 from gmg import conc, grids, ir, report, structq, taint
 from gmg.conc import ConcDomain, TOP
@@ -102,6 +107,166 @@ def algebraic_grid(ck, prog, tier):
             ck.violation("R-C18-5", "uniform-generator:%s" % probs[0].split(" ")[0], site, "%s: %s" % (key, "; ".join(probs)))
         else:
             ck.ok("R-C18-5", key, sample={"parameters": key, "nr": nr, "ntheta": nt, "radius[1]": dag.show(rad[1], 60)})
+
+
+def tolerance_of_equals(prog):
+    """equals<double>(l, r) must have the shape |l - r| <= T * max(1, |l|, |r|) (or an absolute T); returns (T, scaled)"""
+    from fractions import Fraction
+    f = prog.fn("equals<double>")
+    rets = [n for n in ir.walk(f["body"]) if n.get("k") == "Return"]
+    if len(rets) != 1 or rets[0]["e"].get("k") != "Bin" or rets[0]["e"]["op"] not in ("<=", "<"):
+        raise ir.AnalysisBroken("equals<double> is no longer a single comparison |l-r| <= tolerance (%s)" % ir.locstr(f))
+    rhs = rets[0]["e"]["b"]
+    consts, scaled = [], False
+
+    def flat(e):
+        nonlocal scaled
+        k = e.get("k")
+        if k == "Paren":
+            return flat(e["e"])
+        if k == "Bin" and e["op"] == "*":
+            flat(e["a"]); flat(e["b"]); return
+        if k in ("Float", "Int"):
+            consts.append(Fraction((e.get("text") or str(e["v"])).rstrip("fFlL")) if k == "Float" else Fraction(int(e["v"]))); return
+        if k == "Call" and "numeric_limits<double>::epsilon" in e.get("callee", ""):
+            consts.append(Fraction(1, 2 ** 52)); return
+        if k == "Call" and e.get("callee", "").startswith("std::max"):
+            lits = [a for a in ir.walk(e) if a.get("k") == "Float"]
+            if not any(float(a["v"]) == 1.0 for a in lits):
+                raise ir.AnalysisBroken("scale factor of equals<double> is not max(1, ...)")
+            scaled = True; return
+        if k in ("Cast", "ImplicitCast"):
+            return flat(e["e"])
+        raise ir.AnalysisBroken("tolerance expression of equals<double> has an unexpected factor %s at %s" % (k, ir.locstr(e)))
+    flat(rhs)
+    T = Fraction(1)
+    for c in consts:
+        T *= c
+    return T, scaled
+
+
+def round_trip(ck, tier):
+    from fractions import Fraction
+    from gmg import dag, iodom
+    ck.rule("R-C18-6", "grid files: the reader delivers exactly the written sequence (same length and order, each value a function of the written value and the format only), to the same members; library writers use a precision the reload checks accept", floor=4)
+    prog = ir.load(units=["src/PolarGrid/polargrid.cpp", "src/PolarGrid/load_write_grid.cpp", "src/GMGPolar/setup.cpp"], witness=False)
+    for u in prog.units:
+        if u not in ck.units:
+            ck.units.append(u)
+    wfn = prog.fn("PolarGrid::writeToFile")
+    cands = [f for f in prog.fns("PolarGrid::PolarGrid") if len(f["params"]) >= 2 and "string" in f["params"][0]["t"] and "string" in f["params"][1]["t"]]
+    if len(cands) != 1:
+        raise ir.AnalysisBroken("anchor vanished or ambiguous: PolarGrid constructor from two file names (found %d)" % len(cands))
+    rfn = cands[0]
+    for f in (wfn, rfn, prog.fn("PolarGrid::writeVectorToFile"), prog.fn("PolarGrid::loadVectorFromFile")):
+        ck.analysed(f)
+    stubs = ["PolarGrid::checkParameters", "PolarGrid::initializeDistances", "PolarGrid::initializeLineSplitting"]
+    sizes = [(2, 2), (5, 8)] if tier == "quick" else [(2, 2), (3, 4), (5, 8), (9, 6), (17, 32)]
+    P = dag.atom("precision")
+    for nr, nt in sizes:
+        key = "write+reload nr=%d ntheta=%d" % (nr, nt)
+        ck.instance("R-C18-6", key)
+        dom = iodom.IoDomain(prog, stubs=stubs)
+        it = Interp(prog, dom)
+        g = dom.new_object("PolarGrid", None, None)
+        ra, an = g.f["radii_"].get(), g.f["angles_"].get()
+        for i in range(nr):
+            ra.sym[i] = dag.atom("r%d" % i)
+        for j in range(nt + 1):
+            an.sym[j] = dag.atom("theta%d" % j)
+        ra.length, an.length = nr, nt + 1
+        g.f["nr_"].set(nr)
+        g.f["ntheta_"].set(nt)
+        it.call_function(wfn, g, ["<radii file>", "<angles file>", P])
+        h = dom.new_object("PolarGrid", None, None)
+        it.call_function(rfn, h, ["<radii file>", "<angles file>", None][:len(rfn["params"])])
+        probs = []
+        notation = set()
+        for fname in ("<radii file>", "<angles file>"):
+            toks = dom.files.get(fname)
+            if toks is None:
+                probs.append("%s is never opened for writing" % fname)
+                continue
+            for t in toks:
+                if t[0] == "num":
+                    notation.add(t[2])
+                    if t[3] is not P:
+                        probs.append("a value in %s is written with precision %s, not the caller's" % (fname, t[3]))
+        hr, ha = h.f["radii_"].get(), h.f["angles_"].get()
+        for nm, got, src, n in (("radii_", hr, ra, nr), ("angles_", ha, an, nt + 1)):
+            if got.length != n:
+                probs.append("%s reloads with %s entries, %d were written" % (nm, got.length, n))
+                continue
+            for i in range(n):
+                v = got.sym.get(i)
+                w = src.sym[i]
+                if not (isinstance(v, dag.Node) and any(v is dag.func("rd_" + no, w, P) for no in ("fixed", "scientific", "default"))):
+                    probs.append("%s[%d] reloads as %s, written value was %s" % (nm, i, dag.show(v, 60) if isinstance(v, dag.Node) else v, dag.show(w, 20)))
+                    break
+        if h.f["nr_"].get() != nr or h.f["ntheta_"].get() != nt:
+            probs.append("reloaded grid has nr_=%s ntheta_=%s, written grid %d x %d" % (h.f["nr_"].get(), h.f["ntheta_"].get(), nr, nt))
+        order = [b for b, _, _ in dom.stub_log]
+        if "PolarGrid::checkParameters" not in order:
+            probs.append("the file constructor does not validate what it loaded")
+        else:
+            snap = [sn for b, _, sn in dom.stub_log if b == "PolarGrid::checkParameters"][0]
+            if snap is None or snap.get("radii_", (0, 0))[1] != nr or snap.get("angles_", (0, 0))[1] != nt + 1:
+                probs.append("checkParameters runs before both files are loaded")
+            if order.index("PolarGrid::checkParameters") != 0:
+                probs.append("derived data (%s) is built before validation" % order[0])
+        if probs:
+            ck.violation("R-C18-6", "round-trip:%s" % probs[0].split(" ")[0], ir.locstr(wfn), "%s: %s" % (key, "; ".join(probs)[:900]))
+        else:
+            ck.ok("R-C18-6", key, sample={"case": key, "radii_[1] after reload": dag.show(hr.sym[1], 60), "notation": sorted(notation)})
+    # ---- library call sites: same members in the same positions for writing and loading; adequate constant precision
+    T, scaled = tolerance_of_equals(prog)
+    import math
+    writes, loads = [], []
+    for qn, fl in prog.functions.items():
+        for f in fl:
+            if not ir.locstr(f).startswith("src/") or qn.startswith("PolarGrid::"):
+                continue
+            consts = {}
+            for n in ir.walk(f["body"]):
+                if n.get("k") == "Decl":
+                    for v in n["vars"]:
+                        if v.get("init") is not None and v["init"].get("k") == "Int" and v["t"].startswith("const"):
+                            consts[v["id"]] = int(v["init"]["v"])
+            for n in ir.walk(f["body"]):
+                if n.get("k") == "Call" and n.get("callee") == "PolarGrid::writeToFile":
+                    writes.append((f, n, consts))
+                if n.get("k") == "Construct" and n.get("ctor") == "PolarGrid::PolarGrid" and len(n["args"]) >= 2 and "string" in n["args"][0].get("t", ""):
+                    loads.append((f, n))
+    if not writes or not loads:
+        raise ir.AnalysisBroken("no library call site of PolarGrid::writeToFile / the file constructor found")
+    name = lambda a: a.get("field") or a.get("name")
+    for f, n, consts in writes:
+        key = "writeToFile call at %s" % ir.locstr(n)
+        ck.instance("R-C18-6", key)
+        probs = []
+        w = (name(n["args"][0]), name(n["args"][1]))
+        for lf, ln in loads:
+            l = (name(ln["args"][0]), name(ln["args"][1]))
+            if set(l) == set(w) and l != w:
+                probs.append("radii and angles file names are passed as %s here and as %s to the loading constructor at %s" % (w, l, ir.locstr(ln)))
+        pa = n["args"][2]
+        pv = int(pa["v"]) if pa.get("k") == "Int" else consts.get(pa.get("id"))
+        if pv is None:
+            ck.undecide("R-C18-6", key, "precision argument is not a compile-time constant")
+            continue
+        bound = T * Fraction(math.pi) if scaled else T
+        if Fraction(1, 10 ** pv) > bound:
+            probs.append("precision %d: two reloaded angles carry up to 10^-%d rounding in total, above the tolerance %.3g of the antipodal-partner / end-point tests in checkParameters (equals: %.3g * max(1,|x|)): a grid written here can be rejected when loaded back" % (pv, pv, float(bound), float(T)))
+        if probs:
+            ck.violation("R-C18-6", "round-trip:call-site", ir.locstr(n), "%s: %s" % (key, "; ".join(probs)))
+        else:
+            ck.ok("R-C18-6", key, sample={"call": key, "precision": pv, "tolerance of equals": "%.3g" % float(T), "files": list(w)})
+    for lf, ln in loads:
+        key = "load call at %s" % ir.locstr(ln)
+        ck.instance("R-C18-6", key)
+        l = [name(ln["args"][0]), name(ln["args"][1])]
+        r = [p["name"] for p in rfn["params"][:2]]
+        ck.ok("R-C18-6", key, sample={"call": key, "arguments": l, "parameters": r})
 
 
 def main(tier):
@@ -267,6 +432,8 @@ def main(tier):
     pinned(f, "result", lambda i: i.replace(" ", "") == "(resultSize-1)", lambda r: r == "vec.back()", "the last input value")
     # ---------------- R-C18-5: algebraic facts of the uniform generator (exact rational functions of R0, Rmax)
     algebraic_grid(ck, prog, tier)
+    # ---------------- R-C18-6: text round trip (writer and reader interpreted over abstract streams)
+    round_trip(ck, tier)
     return ck.finish(
         "Grid generation is examined without running it: (1) a taint analysis over the generator functions marks every integer "
         "that depends on the caller's parameters through a float->int conversion or unchecked arithmetic and requires, at every "
